@@ -20,6 +20,9 @@ STRATS = {'none': None, 'naive': C.NaiveStrategy, 'max': C.MaxStrategy, 'random'
           'bucketmax': C.BucketMaxStrategy, 'plain': C.DrainStrategy}
 
 
+FUTURE = 4102444800.5     # 2100-01-01, fractional
+
+
 def configure(mx, flow):
   settings.MAX_CACHE_SIZE = mx
   settings.USE_FLOW_CONTROL = flow
@@ -91,7 +94,8 @@ def check_drain(c, clause):
   key = clause.split('/')[-1].split('[')[0]
   res = {}
   if m is None:
-    res['progress'] = not any(before.values()) or c.strategy is not None and isinstance(c.strategy, C.TimeSortedStrategy)
+    # (MIN_TIMESTAMP_LAG is 0 here: "nothing to do" is only an answer for an empty cache, whatever the timestamps)
+    res['progress'] = res['nonempty_batch'] = res['None_only_when_nothing_is_eligible'] = res['choose_in_cache'] = not any(before.values())
     res['size_exact'] = c.size == sum(len(x) for x in after.values())
   else:
     res['sorted_unique'] = [t for t, _ in dps] == sorted(set(t for t, _ in dps))
@@ -108,7 +112,7 @@ def check_drain(c, clause):
 
 def search(clause, maxes, flows, strategies, depth):
   metrics = ['a', 'b']
-  tss = [1, 2]
+  tss = [1, FUTURE]      # long ago / later than the clock of this machine
   ops = [('s', m, t) for m in metrics for t in tss] + [('d',)]
   tried = 0
   # (cacheFull can only fire when MAX <= size <= hard limit - 1, i.e. under flow control with
